@@ -196,3 +196,71 @@ func VH_C11_two() {
 	vAssert("C11.two.control_iff_any_diverged", vIff(IsIndexCorrupted(cerr), damaged))
 	vAssert("C11.two.no_other_error", cerr == nil || IsIndexCorrupted(cerr))
 }
+
+// VH_C11_unreadable: "Repair ... afterwards Control succeeds" read as an
+// implication the caller relies on: whenever Repair reports success, Control
+// succeeds.  The diverging file here cannot be read back (empty, truncated,
+// ill-typed, or plain JSON in a compressed collection): Repair may fail, but
+// may not claim success while the file is still unindexed; once the file is
+// removed Repair succeeds and Control agrees.
+func VH_C11_unreadable() {
+	cfg := []vhCfg{vhCfgs[0], vhCfgs[2]}[vChoice("cfg", 2)]
+	db, root := vhOpenDB(cfg)
+	dir := root + "/sod.vObj"
+	ext := ".json"
+	if cfg.compress {
+		ext += ".gz"
+	}
+	var rows []vhRow
+	for k := 0; k < 2; k++ {
+		o := vhNewObj()
+		vAssert("C11.unr.insert", db.InsertOrUpdate(o) == nil)
+		rows = append(rows, vhRow{o.UUID(), *o})
+	}
+	var bad string
+	disk := rows
+	switch vChoice("which", 3) {
+	case 0: // a file dropped in by another tool, before the indexed ones in directory order
+		vAssert("C11.unr.close", db.Close() == nil)
+		bad = dir + "/00000000-0000-4000-8000-000000000000" + ext
+		vAssert("C11.unr.copy", vCopyFile(dir+"/"+rows[0].uuid+ext, bad))
+	case 1: // the same, after them
+		vAssert("C11.unr.close", db.Close() == nil)
+		bad = dir + "/ffffffff-ffff-4fff-8fff-ffffffffffff" + ext
+		vAssert("C11.unr.copy", vCopyFile(dir+"/"+rows[0].uuid+ext, bad))
+	case 2: // the index lost the entry of a stored object whose file is damaged
+		s, err := db.Schema(&vObj{})
+		vAssert("C11.unr.schema", err == nil)
+		s.ObjectIndex.deleteByUUID(rows[1].uuid)
+		vAssert("C11.unr.close", db.Close() == nil)
+		bad = dir + "/" + rows[1].uuid + ext
+		disk = rows[:1]
+	}
+	switch vChoice("damage", 3) {
+	case 0:
+		vTruncateFile(bad, 0) // empty
+	case 1:
+		vTruncateFile(bad, 1) // cut in the middle of a member
+	case 2: // well-formed JSON of the wrong type for the fields
+		if cfg.compress {
+			vTruncateFile(bad, 1)
+		} else if !vJSONSet(bad, "A", "\"not a number\"") {
+			return
+		}
+	}
+	db2 := Open(root)
+	_, lerr := db2.Schema(&vObj{})
+	vAssert("C11.unr.load_reports", lerr != nil)
+	rerr := db2.Repair(&vObj{})
+	cerr := db2.Control()
+	vAssert("C11.unr.repair_ok_implies_control_ok", vImplies(rerr == nil, cerr == nil))
+	vAssert("C11.unr.unreadable_file_is_reported", rerr != nil)
+	// the way out: the unreadable file is removed, Repair then succeeds for good
+	vRemoveFile(bad)
+	db3 := Open(root)
+	db3.Schema(&vObj{})
+	vAssert("C11.unr.repair_after_removal", db3.Repair(&vObj{}) == nil)
+	vAssert("C11.unr.control_after_removal", db3.Control() == nil)
+	vhCheckReads("C11.unr.repaired", db3, disk)
+	vhCheckSearch("C11.unr.repaired", db3, disk, "A")
+}
